@@ -56,6 +56,8 @@ def run(ctx: RunCtx) -> None:
     svc, calls = gen_program(ch, max_calls=5, big=False)
     for i, c in enumerate(calls):
         c.beh.big = [0, 100, 700, 3000, 40_000][ch.choose(5, f"c{i}.pad")]
+        if c.beh.kind == "exchange":
+            c.beh.alias_in = [0, 0, 1, 2][ch.choose(4, f"c{i}.alias")]  # outputs that alias the (shm-resident) input's buffers
     legs.install_world([svc], calls)
     host = FakeShmHost()
     saved = (shm_mod.SharedMemory, shm_mod.SHM_MIN_BATCH_BYTES)
